@@ -5,7 +5,7 @@ CONSTANTS
   MaxLog = 4
   NonCmdKinds = {}
   WarmStart = TRUE
-  MaxRestarts = 1
+  MaxRestarts = 0
   UpgradeStrong = TRUE
   VerifyQuorum = TRUE
   RecheckTerm = TRUE
